@@ -352,8 +352,8 @@ func c12Thresholds(c *Ctx) {
 		c.und("thresholds", "votecounter.q", "", "anchor not found")
 	}
 	for _, q := range []struct{ fn, pat string }{
-		{"HasQuorumForVote", " >= v.quorumVotingPower)"}, {"HasQuorumForAny", " >= v.quorumVotingPower)"},
-		{"HasFuturePrecommitQuorum", " >= v.quorumVotingPower)"}, {"HasNonFaultyFutureMessage", " > v.faultyVotingPower)"},
+		{"HasQuorumForVote", " >= v.|quorumVotingPower)"}, {"HasQuorumForAny", " >= v.|quorumVotingPower)"},
+		{"HasFuturePrecommitQuorum", " >= v.|quorumVotingPower)"}, {"HasNonFaultyFutureMessage", " > v.|faultyVotingPower)"},
 	} {
 		f := vcFunc(p, "VoteCounter", q.fn)
 		if f == nil {
@@ -366,7 +366,9 @@ func c12Thresholds(c *Ctx) {
 			rd := b.dnf(ret.Results[0], true, 0)
 			d = dnfOr(d, dnfAnd(b.pathCond(ret.Block, nil, f, 0), rd))
 		}
-		ok, miss := everyDisjunctHas(d, []string{q.pat})
+		// the threshold may be a field of the counter or of a small struct grouping the thresholds (v.thresholds.quorum…)
+		ok, miss := everyDisjunctHas(d, strings.Split(q.pat, "|"))
+		q.pat = strings.ReplaceAll(q.pat, "|", "")
 		c.check(ok && len(d) > 0, "thresholds", "VoteCounter."+q.fn, p.Pos(fnPos(f)), "true only if count"+q.pat, "threshold comparison changed: returns true without count"+q.pat+" — "+miss)
 	}
 	// quorum fields assigned from q()/f()
@@ -386,6 +388,10 @@ func c12Thresholds(c *Ctx) {
 			if st, ok := in.(*ssa.Store); ok {
 				if fa, ok := st.Addr.(*ssa.FieldAddr); ok && isNamed(fa.X.Type(), "consensus/votecounter", "VoteCounter") {
 					got[fieldName(fa.X.Type(), fa.Field)] = termInl(st.Val)
+					// a struct-valued field built by a constructor of the package (thresholds: newThresholds(total))
+					for k, t := range structLiteralFields(st.Val, 0) {
+						got[k] = t
+					}
 				}
 			}
 		})
@@ -624,11 +630,24 @@ func c12LockAndThresholdWrites(c *Ctx) {
 		if st, ok := in.(*ssa.Store); ok {
 			if fa, ok := st.Addr.(*ssa.FieldAddr); ok {
 				nm := fieldName(fa.X.Type(), fa.Field)
+				uncond := func() bool {
+					d := p.mustHoldAt(in)
+					return !(!(len(d) == 1 && len(d[0]) == 0) && len(d) > 0)
+				}
 				if nm == "totalVotingPower" || nm == "faultyVotingPower" || nm == "quorumVotingPower" {
 					got[nm] = termInl(st.Val)
-					d := p.mustHoldAt(in)
-					if !(len(d) == 1 && len(d[0]) == 0) && len(d) > 0 {
+					if !uncond() {
 						cond[nm] = true
+					}
+				} else if lf := structLiteralFields(st.Val, 0); lf != nil {
+					// the three values grouped in one struct that is replaced as a whole
+					for _, k := range []string{"totalVotingPower", "faultyVotingPower", "quorumVotingPower"} {
+						if t, has := lf[k]; has {
+							got[k] = t
+							if !uncond() {
+								cond[k] = true
+							}
+						}
 					}
 				}
 			}
